@@ -369,15 +369,23 @@ def trace_origin(
                 # For non-builtin modules (unfortunately including much of the stdlib),
                 # we try to parse the ast of the module to figure out what __all__ is
                 # likely to contain. This is pretty accurate, but not perfect.
-                with origin.open("r", encoding="utf-8") as stream:
-                    module_source = stream.read()
+                try:
+                    with origin.open("r", encoding="utf-8") as stream:
+                        module_source = stream.read()
+                except (OSError, UnicodeDecodeError):
+                    continue  # What it provides cannot be read
 
                 if module_source == source:
                     continue  # from . import *
 
-                if trace_origin(
-                    name, module_source, __all__=True, package_path=str(origin.parent)
-                ):
+                try:
+                    provided = trace_origin(
+                        name, module_source, __all__=True, package_path=str(origin.parent)
+                    )
+                except (SyntaxError, ValueError):
+                    continue  # A module that does not parse. Importing it fails as well.
+
+                if provided:
                     return _TraceResult(core.get_code(node, source), node.lineno, node)
 
                 # A submodule of a package is bound in the package when it has been imported,
@@ -442,7 +450,17 @@ def _is_traceable_star_import(node: ast.ImportFrom) -> bool:
         return True
 
     origin = _trace_module_source_file(node.module)
-    return origin in {"frozen", "built-in"} or (origin is not None and origin.endswith(".py"))
+    if origin in {"frozen", "built-in"}:
+        return True
+
+    if origin is None or not origin.endswith(".py"):
+        return False
+
+    try:
+        with open(origin, "r", encoding="utf-8") as stream:
+            return core.is_valid_python(stream.read())
+    except (OSError, UnicodeDecodeError, ValueError):
+        return False
 
 
 @processing.fix
